@@ -15,3 +15,4 @@ INVARIANT MemoFresh
 INVARIANT BodyOnce
 VIEW View
 CHECK_DEADLOCK FALSE
+ACTION_CONSTRAINT Dump
